@@ -33,7 +33,7 @@ func isStorageIface(call ssa.CallInstruction) bool {
 }
 
 func checkC07(c *Ctx, r *Report) {
-	r.Explain = "Decides structural necessary conditions of sequence allocation: (R1) the allocator's window state {last,max,sequenceBatchSize} is only touched under its mutex, `_`-helpers only called with it held (lockset analysis); (R2) only _incrementSequence and _fixSyncSeqRollback mutate the shared counter document, and only sequenceAllocator methods write last/max; (R3) every store to last/max has one of the admitted shapes that keep hand-outs inside the reserved window (increment only after a has-room check or a successful reservation; values derived from the counter increment just performed); (R4) allocation/release pairing: a failed document write releases the carried sequence and every sequence carried across CAS retries except on a storage timeout, the retry path moves a superseded sequence to the unused list, and each principal-sequence allocation site releases on failure of the write that was to carry it; (R5) the unused-sequence keys written by the allocator have the prefix/slot grammar the change cache parses. Not decided: uniqueness across nodes (relies on the server's atomic increment), batch-size arithmetic, idle-release timing."
+	r.Explain = "Decides structural necessary conditions of sequence allocation: (R1) the allocator's window state {last,max,sequenceBatchSize} is only touched under its mutex, `_`-helpers only called with it held (lockset analysis); (R2) only _incrementSequence and _fixSyncSeqRollback mutate the shared counter document, and only sequenceAllocator methods write last/max; (R3) every store to last/max has one of the admitted shapes that keep hand-outs inside the reserved window (increment only after a has-room check or a successful reservation; values derived from the counter increment just performed); (R4) allocation/release pairing: a failed document write releases the carried sequence and every sequence carried across CAS retries except on a storage timeout, the retry path moves a superseded sequence to the unused list, and each principal-sequence allocation site releases on failure of the write that was to carry it; (R5) the unused-sequence keys written by the allocator have the prefix/slot grammar the change cache parses; (R6) after an attempt to release the allocator's whole remaining window no hand-out and no success return is reachable on the failure edge before the window is abandoned. Not decided: uniqueness across nodes (relies on the server's atomic increment), batch-size arithmetic, idle-release timing."
 	la := newLockAnalysis(c, []string{"sequenceAllocator.mutex"}, "db")
 	la.Solve()
 	r.Rule("C07-R1", "E1 guardedby", "sequenceAllocator{last,max,sequenceBatchSize} accessed only under sequenceAllocator.mutex (callers of _nextSequence/_reserveSequenceBatch/_incrementSequence/_releaseCurrentBatch/_fixSyncSeqRollback hold it)", 20)
@@ -61,6 +61,7 @@ func checkC07(c *Ctx, r *Report) {
 	c07R3(c, r)
 	c07R4(c, r)
 	c07R5(c, r)
+	c07R6(c, r)
 }
 
 func c07R2(c *Ctx, r *Report) {
